@@ -85,6 +85,11 @@ type world struct {
 	// whole world (a package-level `var idMatcher = match.Type[string]("id")` used by many tests)
 	matcherCache map[string]bothMatcher
 	pkgTurn  bool
+	bufTurn  bool
+	// a `nest` op arms one Match* call that is made from INSIDE a user-defined matcher of the next
+	// json/sajson/yaml op (a re-entrant call); its result line is held back until the outer call returned
+	pending []string
+	held    []string
 	ts      map[int]*mockT
 	realEnv bool
 	out     *bufio.Writer
@@ -142,15 +147,20 @@ func hexList(l []string) string {
 
 type matcherSpec struct {
 	kind  string
+	flags string
 	eom   bool
+	stmt  bool   // options called as statements on a matcher built earlier, results dropped
 	ph    string // hex-decoded JSON literal for Any; type name for Type; ok/err payload for Custom
 	paths []string
 	okErr string
+	inner []string // W: tokens of the wrapped matchers
 }
 
+// parseMatcher: <kind>;<flags>;...   flags of A/T/C: "1"/"0" (ErrOnMissingPath) + optional "s"
+// (statement-style configuration); flags of the user-defined kinds U/W: letters, see userMatcher
 func parseMatcher(tok string) matcherSpec {
 	f := strings.Split(tok, ";")
-	m := matcherSpec{kind: f[0], eom: f[1] == "1"}
+	m := matcherSpec{kind: f[0], flags: f[1], eom: strings.HasPrefix(f[1], "1"), stmt: strings.Contains(f[1], "s")}
 	switch f[0] {
 	case "A":
 		m.ph = f[2]
@@ -166,13 +176,104 @@ func parseMatcher(tok string) matcherSpec {
 		m.paths = []string{unhx(f[2])}
 		m.okErr = f[3]
 		m.ph = unhx(f[4])
+	case "W":
+		m.inner = strings.Fields(unhx(f[2]))
+	case "U":
 	}
 	return m
+}
+
+// tokenFires: does applying this matcher make the armed nested call?
+func tokenFires(tok string) bool {
+	sp := parseMatcher(tok)
+	if (sp.kind == "U" && strings.Contains(sp.flags, "x")) || (sp.kind == "C" && sp.okErr == "okx") {
+		return true
+	}
+	for _, in := range sp.inner {
+		if tokenFires(in) {
+			return true
+		}
+	}
+	return false
 }
 
 type bothMatcher interface {
 	JSON([]byte) ([]byte, []match.MatcherError)
 	YAML([]byte) ([]byte, []match.MatcherError)
+}
+
+// userMatcher: a matcher written by the USER against the public interfaces match.JSONMatcher /
+// match.YAMLMatcher.  It only inspects the document (which must be what the library validated) and
+// hands it on unchanged.  flags: e = "no errors" is an empty non-nil slice (the idiom
+// `errs := []match.MatcherError{}` the library uses itself), otherwise nil; c = returns a copy
+// instead of the slice it was given; x = makes the Match* call armed by the preceding `nest` op
+// (a helper that snapshots something else while the outer call is between validation and
+// formatting)
+type userMatcher struct {
+	flags string
+	w     *world
+}
+
+func (u *userMatcher) apply(kind string, b []byte) ([]byte, []match.MatcherError) {
+	ok := true
+	if kind == "json" {
+		ok = gjson.ValidBytes(b)
+	} else {
+		var v any
+		ok = yaml.Unmarshal(b, &v) == nil
+	}
+	if !ok {
+		return nil, []match.MatcherError{{Reason: errors.New("the document handed to the matcher is not valid"), Matcher: "User", Path: "*"}}
+	}
+	if strings.Contains(u.flags, "x") && u.w != nil && u.w.pending != nil {
+		u.w.runNested()
+	}
+	out := b
+	if strings.Contains(u.flags, "c") {
+		out = append([]byte(nil), b...)
+	}
+	if strings.Contains(u.flags, "e") {
+		return out, []match.MatcherError{}
+	}
+	return out, nil
+}
+
+func (u *userMatcher) JSON(b []byte) ([]byte, []match.MatcherError) { return u.apply("json", b) }
+func (u *userMatcher) YAML(b []byte) ([]byte, []match.MatcherError) { return u.apply("yaml", b) }
+
+// compositeMatcher: a user-defined matcher grouping built-in (or other) matchers and collecting
+// their errors; the group fails as a whole.  flag e: success is reported as an empty non-nil slice
+type compositeMatcher struct {
+	flags string
+	inner []bothMatcher
+}
+
+func (c *compositeMatcher) run(b []byte, f func(bothMatcher, []byte) ([]byte, []match.MatcherError)) ([]byte, []match.MatcherError) {
+	errs := []match.MatcherError{}
+	cur := b
+	for _, m := range c.inner {
+		o, e := f(m, cur)
+		if len(e) > 0 {
+			errs = append(errs, e...)
+			continue
+		}
+		cur = o
+	}
+	if len(errs) > 0 {
+		return nil, errs
+	}
+	if strings.Contains(c.flags, "e") {
+		return cur, errs
+	}
+	return cur, nil
+}
+
+func (c *compositeMatcher) JSON(b []byte) ([]byte, []match.MatcherError) {
+	return c.run(b, func(m bothMatcher, x []byte) ([]byte, []match.MatcherError) { return m.JSON(x) })
+}
+
+func (c *compositeMatcher) YAML(b []byte) ([]byte, []match.MatcherError) {
+	return c.run(b, func(m bothMatcher, x []byte) ([]byte, []match.MatcherError) { return m.YAML(x) })
 }
 
 func decodeLit(s string) any {
@@ -183,9 +284,31 @@ func decodeLit(s string) any {
 	return v
 }
 
-func (m matcherSpec) build() bothMatcher {
+// typeM: chained (`match.Type[T](…).ErrOnMissingPath(x)`) or statement style (`m := match.Type[T](…);
+// m.ErrOnMissingPath(x)`)
+func typeM[T any](m matcherSpec) bothMatcher {
+	if m.stmt {
+		t := match.Type[T](m.paths...)
+		t.ErrOnMissingPath(m.eom)
+		return t
+	}
+	return match.Type[T](m.paths...).ErrOnMissingPath(m.eom)
+}
+
+// build: w == nil gives a fresh, side-effect free value (used by the independent oracle pipeline);
+// with a world the wrapped matchers of a composite are the world's shared values
+func (m matcherSpec) build(w *world) bothMatcher {
 	switch m.kind {
 	case "A":
+		if m.stmt {
+			// built first, configured afterwards, the values returned by the option methods are dropped
+			a := match.Any(m.paths...)
+			if m.ph != "-" {
+				a.Placeholder(decodeLit(unhx(m.ph)))
+			}
+			a.ErrOnMissingPath(m.eom)
+			return a
+		}
 		a := match.Any(m.paths...).ErrOnMissingPath(m.eom)
 		if m.ph != "-" {
 			a = a.Placeholder(decodeLit(unhx(m.ph)))
@@ -194,31 +317,52 @@ func (m matcherSpec) build() bothMatcher {
 	case "T":
 		switch m.ph {
 		case "string":
-			return match.Type[string](m.paths...).ErrOnMissingPath(m.eom)
+			return typeM[string](m)
 		case "float64":
-			return match.Type[float64](m.paths...).ErrOnMissingPath(m.eom)
+			return typeM[float64](m)
 		case "uint64":
-			return match.Type[uint64](m.paths...).ErrOnMissingPath(m.eom)
+			return typeM[uint64](m)
 		case "bool":
-			return match.Type[bool](m.paths...).ErrOnMissingPath(m.eom)
+			return typeM[bool](m)
 		case "map":
-			return match.Type[map[string]any](m.paths...).ErrOnMissingPath(m.eom)
+			return typeM[map[string]any](m)
 		case "slice":
-			return match.Type[[]any](m.paths...).ErrOnMissingPath(m.eom)
+			return typeM[[]any](m)
 		case "intslice":
 			// a concrete element type never matches a decoded document ([]interface {})
-			return match.Type[[]int](m.paths...).ErrOnMissingPath(m.eom)
+			return typeM[[]int](m)
 		case "strintmap":
-			return match.Type[map[string]int](m.paths...).ErrOnMissingPath(m.eom)
+			return typeM[map[string]int](m)
 		}
 	case "C":
 		okErr, payload := m.okErr, m.ph
-		return match.Custom(m.paths[0], func(val any) (any, error) {
+		c := match.Custom(m.paths[0], func(val any) (any, error) {
 			if okErr == "err" {
 				return nil, errors.New(payload)
 			}
+			if okErr == "okx" && w != nil && w.pending != nil {
+				// the callback itself records a snapshot (of something else): a re-entrant call
+				w.runNested()
+			}
 			return decodeLit(payload), nil
-		}).ErrOnMissingPath(m.eom)
+		})
+		if m.stmt {
+			c.ErrOnMissingPath(m.eom)
+			return c
+		}
+		return c.ErrOnMissingPath(m.eom)
+	case "W":
+		c := &compositeMatcher{flags: m.flags}
+		for _, in := range m.inner {
+			if w != nil {
+				c.inner = append(c.inner, w.matcher(in))
+			} else {
+				c.inner = append(c.inner, parseMatcher(in).build(nil))
+			}
+		}
+		return c
+	case "U":
+		return &userMatcher{flags: m.flags, w: w}
 	}
 	panic("bad matcher " + m.kind)
 }
@@ -268,7 +412,7 @@ func expectJSON(jc *JSONConfig, form string, doc []byte, ms []matcherSpec) strin
 	}
 	var all []match.MatcherError
 	for _, m := range ms {
-		o, errs := m.build().JSON(append([]byte(nil), b...))
+		o, errs := m.build(nil).JSON(append([]byte(nil), b...))
 		if len(errs) > 0 {
 			all = append(all, errs...)
 			continue
@@ -303,7 +447,7 @@ func expectYAML(form string, doc []byte, ms []matcherSpec) string {
 	}
 	var all []match.MatcherError
 	for _, m := range ms {
-		o, errs := m.build().YAML(append([]byte(nil), b...))
+		o, errs := m.build(nil).YAML(append([]byte(nil), b...))
 		if len(errs) > 0 {
 			all = append(all, errs...)
 			continue
@@ -481,20 +625,78 @@ func captureStdout(f func()) string {
 	return string(b)
 }
 
-func (w *world) result(op string, t *mockT, before map[string]bool, stdout string) {
+func (w *world) resultLine(op string, t *mockT, before map[string]bool, stdout string) string {
 	wr, rm := w.changes(before)
 	ev := ""
 	if t != nil {
 		ev = t.take()
 	}
-	fmt.Fprintf(w.out, "%s ev=%s w=%s d=%s out=%s\n", op, ev, hexList(wr), hexList(rm), hx(stdout))
+	return fmt.Sprintf("%s ev=%s w=%s d=%s out=%s\n", op, ev, hexList(wr), hexList(rm), hx(stdout))
+}
+
+// flushHeld prints the result lines of nested calls that ran inside the current operation
+func (w *world) flushHeld() {
+	for _, h := range w.held {
+		w.out.WriteString(h)
+	}
+	w.held = nil
+}
+
+func (w *world) result(op string, t *mockT, before map[string]bool, stdout string) {
+	line := w.resultLine(op, t, before, stdout)
+	w.flushHeld()
+	w.out.WriteString(line)
+}
+
+// runNested makes the armed call.  Its annotated lines are written at once (they precede the outer
+// call's: the nested call works on the files first), its result line is held back; afterwards the
+// mtimes are stamped again so that the outer call's write detection starts afresh.
+func (w *world) runNested() {
+	p := w.pending
+	w.pending = nil
+	old := w.out
+	var buf bytes.Buffer
+	w.out = bufio.NewWriter(&buf)
+	func() {
+		defer func() {
+			if r := recover(); r != nil {
+				fmt.Fprintf(w.out, "panic:%s\n", hx(fmt.Sprint(r)))
+			}
+			w.out.Flush()
+			w.out = old
+		}()
+		w.exec1(strings.Join(p, " "))
+	}()
+	w.held = append(w.held, buf.String())
+	w.stamp()
+}
+
+// callerBytes hands a document over the way a caller owning a larger buffer would: every other time
+// as a sub-slice with live data before and after it (spare capacity reaching into that data)
+func (w *world) callerBytes(doc []byte) (whole, in []byte) {
+	w.bufTurn = !w.bufTurn
+	if w.bufTurn {
+		in = append([]byte(nil), doc...)
+		return in, in
+	}
+	const head, tail = "<head of the caller's buffer>", "<tail of the caller's buffer>"
+	whole = append(append([]byte(head), doc...), tail...)
+	return whole, whole[len(head) : len(head)+len(doc)]
+}
+
+func callerBytesIntact(whole, in, doc []byte) bool {
+	if len(whole) == len(in) {
+		return bytes.Equal(in, doc)
+	}
+	const head, tail = "<head of the caller's buffer>", "<tail of the caller's buffer>"
+	return bytes.Equal(whole, []byte(head+string(doc)+tail))
 }
 
 func (w *world) matcher(spec string) bothMatcher {
 	if m, ok := w.matcherCache[spec]; ok {
 		return m
 	}
-	m := parseMatcher(spec).build()
+	m := parseMatcher(spec).build(w)
 	w.matcherCache[spec] = m
 	return m
 }
@@ -535,6 +737,33 @@ func (w *world) exec(line string) {
 	if len(tok) == 0 {
 		return
 	}
+	if tok[0] == "nest" {
+		// nest <json|sajson|yaml> <cfg> <texec> <form> <doc> [matchers]: armed, made by the next op
+		if w.pending != nil {
+			w.runNested()
+			w.flushHeld()
+		}
+		w.pending = tok[1:]
+		return
+	}
+	if w.pending != nil {
+		fires := false
+		if tok[0] == "json" || tok[0] == "sajson" || tok[0] == "yaml" {
+			for _, m := range tok[5:] {
+				fires = fires || tokenFires(m)
+			}
+		}
+		if !fires {
+			// no matcher of this operation makes the armed call: it is an ordinary call made now
+			w.runNested()
+			w.flushHeld()
+		}
+	}
+	w.exec1(line)
+}
+
+func (w *world) exec1(line string) {
+	tok := strings.Fields(line)
 	atoi := func(s string) int { n, _ := strconv.Atoi(s); return n }
 	switch tok[0] {
 	case "mode":
@@ -631,13 +860,16 @@ func (w *world) exec(line string) {
 			jm = append(jm, w.matcher(m))
 		}
 		jc := w.cfgJSON[atoi(tok[1])]
-		fmt.Fprintln(w.ann, expectJSON(jc, form, doc, ms))
+		exp := expectJSON(jc, form, doc, ms)
 		var input any
+		var whole []byte
 		switch form {
 		case "s":
 			input = string(doc)
 		case "b":
-			input = append([]byte(nil), doc...)
+			var in []byte
+			whole, in = w.callerBytes(doc)
+			input = in
 		default:
 			input = goValue(form, doc)
 		}
@@ -652,12 +884,23 @@ func (w *world) exec(line string) {
 		default:
 			c.MatchStandaloneJSON(t, input, jm...)
 		}
-		if bs, ok := input.([]byte); ok && !bytes.Equal(bs, doc) {
+		if bs, ok := input.([]byte); ok && !callerBytesIntact(whole, bs, doc) {
 			// the bytes passed by the caller must never be modified
 			t.events = append(t.events, "X:"+hx("caller's []byte was modified by the call"))
 		}
+		if rm, ok := input.(json.RawMessage); ok && !bytes.Equal(rm, doc) {
+			// nor the pre-encoded bytes a Go value carries
+			t.events = append(t.events, "X:"+hx("caller's json.RawMessage was modified by the call"))
+		}
+		res := w.resultLine(tok[0], t, before, "")
+		if w.pending != nil {
+			// the document was rejected before the matchers ran: the armed call is made afterwards
+			w.runNested()
+		}
+		fmt.Fprintln(w.ann, exp)
 		fmt.Fprintf(w.ann, "%s %s %s\n", tok[0], tok[1], tok[2])
-		w.result(tok[0], t, before, "")
+		w.flushHeld()
+		w.out.WriteString(res)
 	case "yaml":
 		c, t := w.cfgs[atoi(tok[1])], w.ts[atoi(tok[2])]
 		form, doc := tok[3], []byte(unhx(tok[4]))
@@ -668,13 +911,16 @@ func (w *world) exec(line string) {
 			ms = append(ms, sp)
 			ym = append(ym, w.matcher(m))
 		}
-		fmt.Fprintln(w.ann, expectYAML(form, doc, ms))
+		exp := expectYAML(form, doc, ms)
 		var input any
+		var whole []byte
 		switch form {
 		case "s":
 			input = string(doc)
 		case "b":
-			input = append([]byte(nil), doc...)
+			var in []byte
+			whole, in = w.callerBytes(doc)
+			input = in
 		default:
 			input = goValue(form, doc)
 		}
@@ -684,11 +930,17 @@ func (w *world) exec(line string) {
 		} else {
 			c.MatchYAML(t, input, ym...)
 		}
-		if bs, ok := input.([]byte); ok && !bytes.Equal(bs, doc) {
+		if bs, ok := input.([]byte); ok && !callerBytesIntact(whole, bs, doc) {
 			t.events = append(t.events, "X:"+hx("caller's []byte was modified by the call"))
 		}
+		res := w.resultLine("yaml", t, before, "")
+		if w.pending != nil {
+			w.runNested()
+		}
+		fmt.Fprintln(w.ann, exp)
 		fmt.Fprintf(w.ann, "yaml %s %s\n", tok[1], tok[2])
-		w.result("yaml", t, before, "")
+		w.flushHeld()
+		w.out.WriteString(res)
 	case "sasnap":
 		c, t := w.cfgs[atoi(tok[1])], w.ts[atoi(tok[2])]
 		before := w.stamp()
@@ -751,7 +1003,7 @@ func (w *world) exec(line string) {
 		var parts []string
 		for _, mt := range tok[3:] {
 			m := w.matcher(mt)
-			callers := append([]byte(nil), cur...)
+			whole, callers := w.callerBytes(cur)
 			keep := append([]byte(nil), callers...)
 			var o []byte
 			var errs []match.MatcherError
@@ -761,7 +1013,7 @@ func (w *world) exec(line string) {
 				o, errs = m.YAML(callers)
 			}
 			mutated := "0"
-			if !bytes.Equal(callers, keep) {
+			if !callerBytesIntact(whole, callers, keep) {
 				mutated = "1"
 			}
 			var es []string
@@ -877,6 +1129,10 @@ func TestVerifHarness(t *testing.T) {
 	var w *world
 	newWorld := func() {
 		if w != nil {
+			if w.pending != nil {
+				w.runNested()
+				w.flushHeld()
+			}
 			w.out.Flush()
 			w.ann.Flush()
 			os.RemoveAll(w.root)
@@ -909,6 +1165,7 @@ func TestVerifHarness(t *testing.T) {
 		func() {
 			defer func() {
 				if r := recover(); r != nil {
+					w.flushHeld()
 					fmt.Fprintf(w.out, "panic:%s\n", hx(fmt.Sprint(r)))
 				}
 			}()
@@ -916,12 +1173,24 @@ func TestVerifHarness(t *testing.T) {
 		}()
 	}
 	if w != nil {
+		if w.pending != nil {
+			w.runNested()
+			w.flushHeld()
+		}
 		w.out.Flush()
 		w.ann.Flush()
 		os.RemoveAll(w.root)
 	}
 }
 
+
+// yieldMatcher: a user-defined matcher that takes its time (it yields the processor) and changes nothing
+type yieldMatcher struct{}
+
+func (yieldMatcher) JSON(b []byte) ([]byte, []match.MatcherError) {
+	runtime.Gosched()
+	return b, nil
+}
 
 // TestVerifRace: concurrent use of Match*, Skip* and one shared Config, for `go test -race`.
 func TestVerifRace(t *testing.T) {
@@ -950,7 +1219,9 @@ func TestVerifRace(t *testing.T) {
 					shared.MatchSnapshot(mt, fmt.Sprintf("value %d %d", g, i))
 				case 1:
 					if g%2 == 0 {
-						shared.MatchJSON(mt, map[string]any{"g": g, "i": i, "pad": strings.Repeat("x", 200)}, match.Custom("g", func(v any) (any, error) { return v, nil }))
+						// (the yielding matcher lets other goroutines run on this P while the call is between
+						// validation and formatting)
+						shared.MatchJSON(mt, map[string]any{"g": g, "i": i, "pad": strings.Repeat("x", 200)}, yieldMatcher{}, match.Custom("g", func(v any) (any, error) { return v, nil }))
 					} else {
 						shared.MatchJSON(mt, fmt.Sprintf(`{"g":%d,"i":%d}`, g, i))
 					}
@@ -959,7 +1230,13 @@ func TestVerifRace(t *testing.T) {
 				case 3:
 					shared.MatchStandaloneSnapshot(mt, fmt.Sprintf("standalone %d %d", g, i))
 				case 4:
-					shared.MatchStandaloneJSON(mt, fmt.Sprintf(`{"s":%d}`, i))
+					if g%2 == 1 {
+						// Go values through the standalone entry point too (every encoder shares whatever
+						// scratch state the library keeps)
+						shared.MatchStandaloneJSON(mt, map[string]any{"s": i, "g": g, "list": []int{g, i}}, &userMatcher{flags: "e"}, yieldMatcher{})
+					} else {
+						shared.MatchStandaloneJSON(mt, fmt.Sprintf(`{"s":%d}`, i))
+					}
 				case 5:
 					Skip(&mockT{name: fmt.Sprintf("TestRaceSkipped%d", g)})
 				}
